@@ -1,5 +1,6 @@
 import Crusta.Model.Cli
 import Crusta.Proofs.Oracle
+import Crusta.Proofs.CliCompose
 
 /-!
 # C05 — the command-line tools print exactly the right answer, or none (property theorems)
@@ -148,5 +149,70 @@ theorem wrapper_translate (args : List String) :
     unfold wrapperArgs
     have : args.isEmpty = false := by cases args <;> simp_all
     simp [this, h2]
+
+/-- **the composition theorem `cli_answer_valid`.**  For every string the problem parser accepts
+(any letter case) with the problem `t-σ` it denotes, every value of `--encoding` (`enc`; the branch
+taken for the literal string `SE-PR` is computed from the string as the code does), every view
+presenting a graph `g` (so: every readable instance file, by C13/C01 `views_present_their_graph`),
+certificate flag and queried argument of `g`: the solver program the command line dispatches to
+exists, reaches no crash node on sound SAT replies (with the fuel the model gives its loops at least
+`fuelFor`), and returns what the *problem* asks for (`ProblemOK`): an extension under `σ` or "none"
+only if there is none; the credulous / skeptical status under `σ`, with a witness under
+`witnessSem t σ` (a complete extension for DC-PR, which extends to a preferred one:
+`dc_pr_witness_extends`).  This covers the places where the dispatched solver is not the one of
+the problem's semantics: SE-CO / DS-CO through the grounded solver, DC-PR through the complete
+solver, SE-PR through the preferred solver over the *admissibility* encoder. -/
+theorem cli_answer_valid (s : Str) (t : Task) (σ : Sem) (hread : readProblem s = some (t, σ))
+    (enc : Option String) (cfg : Cfg)
+    (henc : ∀ k, dispatchEncoder σ enc (decide (s = s_SEPR)) = some k → cfg.enc = k)
+    (v : FwView) (g : G) (hv : v.Ok g) (cert : Bool) (args : List Nat)
+    (hargs : ∀ a, a ∈ (entryOf t cert args).argsList → g.live a = true)
+    (w : World) (hb : w.Bounded) (hfuel : cfg.fuel ≥ fuelFor (1 + v.maxId.getD 0)) :
+    ∃ p, entryProg (dispatchSolver t σ) cfg v (entryOf t cert args) = some p ∧
+      wp False p w (fun ans _ => ProblemOK t σ g (entryOf t cert args) ans) :=
+  cli_answer_valid_read s t σ hread enc cfg henc v g hv cert args hargs w hb hfuel
+
+/-- the same on interpreter runs: every run on sound replies returns an answer the problem asks for,
+or aborts on an `unknown` reply (no answer is printed: C17), or the reply list was too short; it
+never panics -/
+theorem cli_runs (s : Str) (t : Task) (σ : Sem) (hread : readProblem s = some (t, σ))
+    (enc : Option String) (cfg : Cfg)
+    (henc : ∀ k, dispatchEncoder σ enc (decide (s = s_SEPR)) = some k → cfg.enc = k)
+    (v : FwView) (g : G) (hv : v.Ok g) (cert : Bool) (args : List Nat)
+    (hargs : ∀ a, a ∈ (entryOf t cert args).argsList → g.live a = true)
+    (p : Prog Ans) (hp : entryProg (dispatchSolver t σ) cfg v (entryOf t cert args) = some p)
+    (w : World) (hb : w.Bounded) (hfuel : cfg.fuel ≥ fuelFor (1 + v.maxId.getD 0))
+    (rs : List Reply) (hs : RunSound p rs w) :
+    (∀ msg w', interp p rs w ≠ (.crashed msg, w')) ∧
+    ((∃ ans w', interp p rs w = (.done ans, w') ∧ ProblemOK t σ g (entryOf t cert args) ans) ∨
+     (∃ w', interp p rs w = (.abort, w')) ∨ (∃ w', interp p rs w = (.starved, w'))) :=
+  ⟨cli_never_panics t σ enc _ (literal_guard s t σ hread) cfg henc v g hv cert args hargs p hp w hb hfuel rs hs,
+   cli_run_total t σ enc _ (literal_guard s t σ hread) cfg henc v g hv cert args hargs p hp w hb hfuel rs hs⟩
+
+/-- what `ProblemOK` is: the conformance relation of the problem's own semantics (`EntryOK σ`, the
+one C01–C04 are stated with) for every problem except DC-PR, whose witness is a complete extension -/
+theorem problem_spec (t : Task) (σ : Sem) (h : ¬ (t = .DC ∧ σ = .PR)) (g : G) (cert : Bool)
+    (args : List Nat) (ans : Ans) :
+    ProblemOK t σ g (entryOf t cert args) ans ↔ EntryOK σ g (entryOf t cert args) ans :=
+  problemOK_iff_entryOK t σ h g cert args ans
+
+/-- a DC-PR witness (a complete extension containing the argument) extends to a preferred extension
+containing it -/
+theorem dc_pr_witness_extends {g : G} (hfin : ∃ n, ∀ a, g.live a = true → a < n) {args : List Nat}
+    {e : List Nat} (he : Sem.GExt (witnessSem .DC .PR) g (ofList e)) (hh : HitsL args (ofList e)) :
+    ∃ P, Sem.GExt .PR g P ∧ SubsetS (ofList e) P ∧ HitsL args P :=
+  dc_pr_certificate_extends hfin he hh
+
+/-- the encoder the command line selects is admissible for the solver and entry point it dispatches
+to, for every problem and every value of `--encoding` -/
+theorem dispatched_encoder_admissible (t : Task) (σ : Sem) (enc : Option String) (literal : Bool)
+    (hlit : literal = true → t = .SE ∧ σ = .PR) (cfg : Cfg)
+    (henc : ∀ k, dispatchEncoder σ enc literal = some k → cfg.enc = k) (cert : Bool) (args : List Nat) :
+    CliCfgOK (dispatchSolver t σ) (entryOf t cert args) cfg :=
+  cli_dispatch_cfg_ok t σ enc literal hlit cfg henc cert args
+
+/-- non-vacuity: `SE-PR` with the default encoding reaches the admissibility branch, `se-pr` does not -/
+example : dispatchEncoder .PR none (decide (s_SEPR = s_SEPR)) = some .auxADM ∧
+    dispatchEncoder .PR none (decide (lower s_SEPR = s_SEPR)) = some .auxCO := by decide
 
 end Crusta.C05
